@@ -257,7 +257,7 @@ def seg_values(c):
 def worker(run, st_, k, items):
     c = cpu.CPU()
     segs = seg_values(c)
-    nstates = run.pick(64, 160)
+    nstates = run.pick(64, 1200)
     for inst, code in items:
         try:
             r, err = lift(code)
@@ -314,7 +314,7 @@ def main(run):
     cpu.exe()
     run.rule = ("enumeration: integer-core instruction instances (mnemonic x operand size x form x count class x condition code, assembled by GNU as) x %s deterministic "
                 "states each (boundary pairs first, then pseudo-random registers, flags and memory derived from VERIF_SEED). non-trivial = a run in which the CPU changed a "
-                "compared location and both sides agree; distinct = (instruction text, count class, flags flipped)" % run.pick(64, 160))
+                "compared location and both sides agree; distinct = (instruction text, count class, flags flipped)" % run.pick(64, 1200))
     run.assumptions = ["this machine's CPU is the reference; undefined results are masked by a per-instruction table written from the Intel SDM",
                        "vlib/irsem.py evaluates the lifted list (all right-hand sides on the pre-state)", "faulting runs and instances whose lifting uses an uninterpreted operator are excluded and counted",
                        "states are a pure function of VERIF_SEED (hash-derived), not Hypothesis draws: the replay file stores instruction and state index"]
